@@ -52,6 +52,21 @@ typedef zstr::ifstream spxifstream;
 typedef std::ifstream spxifstream;
 #endif // SOPLEX_WITH_ZLIB
 
+/// Opens \p filename for reading.  The compressed stream throws if the file cannot be opened and out of every read
+/// operation on damaged data; the callers test the state of the stream instead, as they do for the plain stream.
+inline void spxOpenInputFile(spxifstream& file, const char* filename)
+{
+   try
+   {
+      file.open(filename);
+      file.exceptions(std::ios_base::goodbit);
+   }
+   catch(const std::exception&)
+   {
+      file.setstate(std::ios_base::failbit);
+   }
+}
+
 } // namespace soplex
 
 #endif // _SPXFILEIO_H_
